@@ -79,7 +79,7 @@ func uniqSorted(ss []string) []string {
 func (w *Worker) runC04CLI(rc *simapi.RunConfig) *simapi.RunResult {
 	res := &simapi.RunResult{Stats: map[string]int64{}, Probes: map[string]int64{}}
 	wl := w.parseWorkload(rc.Args)
-	ref, panics := w.refForVisits(wl, rc.Visits)
+	ref, panics := w.refForVisits(wl, rc.Visits, true)
 	if len(panics) > 0 {
 		res.Verdict = "skip"
 		res.Notes = append(res.Notes, "reference panics (C01 territory, not judged): "+joinShort(panics, 3))
@@ -131,5 +131,6 @@ func (w *Worker) runC04CLI(rc *simapi.RunConfig) *simapi.RunResult {
 	res.Probes["strategy_"+schedName(v.Sched)] = 1
 	res.DecisionID = hashStrings(strings.Join(rc.Args, " "), fmt.Sprint(rc.Visits), fmt.Sprint(out.Sched.Hash, out.Map.Hash))
 	res.Digest = hashStrings(strings.Join(recordsText(out), ""), fmt.Sprint(out.Sched.Hash, out.Map.Hash, out.Sched.Steps))
+	res.DigestParts = []string{"records=" + hashStrings(strings.Join(recordsText(out), "")), fmt.Sprintf("n_records=%d handover_hash=%x map_hash=%x steps=%d", len(out.Records), out.Sched.Hash, out.Map.Hash, out.Sched.Steps)}
 	return res
 }
